@@ -5,7 +5,8 @@ Inside check worker processes the decimal rendering of a *symbolic* integer v wi
 private plane), and int() of such a one-character string gives v back.  The contract
 relied upon is: rendering is injective, contains none of the delimiters the encoded
 code splits on, and int(str(v)) == v.  Not modelled: the digits and the length of
-the rendering, negative numbers, ordering of rendered strings.  Concrete ints render
+the rendering (a negative number has no leading '-': it is one character of a second
+private plane), ordering of rendered strings.  Concrete ints render
 as usual (so constants such as '1' stay readable and replay is unaffected).
 """
 import crosshair.core as chcore
@@ -13,6 +14,7 @@ from crosshair.libimpl import builtinslib as bl
 from crosshair.tracers import NoTracing
 
 OFF = 0xF0000
+OFF_NEG = 0x100000           # renderings of -LIMIT < v < 0 (second private-use plane); no leading '-' is modelled
 LIMIT = 60000
 INSTALLED = False
 
@@ -24,9 +26,12 @@ _orig_str = bl._str if hasattr(bl, '_str') else None
 
 def _tok(v):
     # v: SymbolicInt, tracing on; forks on the range test
-    if v < 0 or v >= LIMIT:
+    if v >= LIMIT or v <= -LIMIT:
         return None
-    cp = v + OFF
+    if v < 0:
+        cp = OFF_NEG - v
+    else:
+        cp = v + OFF
     with NoTracing():
         return bl.LazyIntSymbolicStr([cp])
 
@@ -48,6 +53,8 @@ def tok_int(val=0, base=bl._MISSING):
     if is_lazy:
         if len(val) == 1:
             cp = ord(val)
+            if cp >= OFF_NEG:
+                return OFF_NEG - cp
             if cp >= OFF:
                 return cp - OFF
     # called from this frame, `int` resolves to the next lower patch layer (CrossHair's own)
@@ -94,4 +101,5 @@ def install():
 
 def detok(s):
     """Concrete helper for witnesses: turn token characters back into digits."""
-    return ''.join(str(ord(c) - OFF) if OFF <= ord(c) < OFF + LIMIT else c for c in s)
+    return ''.join(str(OFF_NEG - ord(c)) if ord(c) > OFF_NEG else
+                   str(ord(c) - OFF) if OFF <= ord(c) < OFF + LIMIT else c for c in s)
